@@ -18,7 +18,7 @@ CFG = {
             "per flavour. Each input: open, list, per name get_hash and get_file read to end with buffers {1,7,4096}, linear extraction of all, "
             "the same reader used again, drop, repair (both modes when encrypted). Cases run in child processes (stack overflow = abnormal exit "
             "attributed to the running case), 8 MiB-stack thread, 5 s watchdog, counting global allocator. non-trivial = body non-empty; "
-            "distinct = distinct input bytes",
+            "distinct = distinct input bytes. c08-stack (scaled): 220 / 900 compression-over-encryption streams (half of them an exact multiple of the block size) with the tag of 1-2 chunks altered, 22-op histories of reads and seeks of every kind continued after errors, seeks to exactly the end: no panic, successful reads return the written bytes",
     "exhaustive": {"quick": False, "thorough": False},
     "explanation": "theorems (Total*.v): over ANY byte string, block parser, footer reader, open, get_hash, get_file, file reads, linear extraction, "
                    "encryption layer reads/seeks and whole operation histories never reach a Crash site of the model and never run out of the "
@@ -28,6 +28,7 @@ CFG = {
                    "hist_plain / hist_enc / repair_plain / repair_enc equal the implementation's",
     "run_modules": ["RunC08"],
     "assumptions": ["fewer than 2^32 chunks per encrypted stream (input < 2^32 * (CHUNK+TAG) bytes, 512 TiB at production constants)",
-                    "the compression layer is not modelled here: it is covered by the direct oracle only",
+                    "the compression reader is modelled with the decoder as a function of the whole compressed block (TotalComp*.v: totality over any bytes and any sizes table); the brotli decoder itself is outside the model (D22 lives there) and is covered by the direct oracle only",
+                    "c08-stack is oracle-only: on an encrypted stream with an unverifiable chunk the model reports the inner error when the decompressor is created, the code at the first read reaching the chunk",
                     "allocation is measured, not proved, for the implementation; the model bound is on the footer (the only input-sized allocation above the layers)"],
 }
